@@ -458,6 +458,8 @@ class Interp:
             return False
         if a == b and isinstance(a, (Unk, Str)):
             return True
+        if isinstance(a, Unk) and isinstance(b, Unk) and a.typ == b.typ and a.typ in self.IDENTITY_TYPES:
+            return a.tag == b.tag      # distinct external objects
         if type(a) is not type(b) and not isinstance(a, (Unk, Str)) and not isinstance(b, (Unk, Str)):
             return False
         k = sorted([repr(a), repr(b)])
@@ -1341,6 +1343,7 @@ class Interp:
         return ci is not None and ci.name in self.intrinsic_classes
 
     intrinsic_classes = {"ParamsDict"}
+    IDENTITY_TYPES = {"writer", "hook", "object"}
 
     def eval_in_class(self, ci: ClassInfo, e):
         key = ("class", ci.module, ci.name, id(e))
@@ -1460,7 +1463,7 @@ class Interp:
         if self.ext_result is not None:
             r = self.ext_result(self, fv, args, kwargs, node)
         if r is None:
-            r = Unk(self.fresh(f"ret({self.tag(fv)})"))
+            r = Unk(self.fresh(f"ret({self.tag(fv)})"), "ext")
         ev.data["result"] = r
         return r
 
